@@ -3,6 +3,7 @@ import lingo_harness as H
 import lingo_spec as S
 from props import C02 as P2
 
+NEEDS_SPEC = True       # the spec tie runs the extracted specification side (runner/specrun)
 BUDGET_S = {'quick': 300, 'thorough': 3400}
 BATCH = 300
 RULE = ('source handlers built from properly nested if / if-else / repeat while / repeat with (up, down, in list) / exit repeat, '
@@ -160,7 +161,15 @@ def judge(c, ir, ms):
         return out
     if ms is not None:
         if mt is None:
-            out.append(('model fails (%r) on a chunk the implementation decompiles' % (ms,), 'correspondence', None))
+            out.append(('model fails (%r) on a chunk the implementation decompiles' % (H.split_ms(ms)[0],), 'correspondence', None))
         elif mt[0] != lingo:
             out.append(('Lingo text differs from the model: ' + H.first_diff(lingo, mt[0]), 'correspondence', None))
+        out += H.spec_verdicts(c, ir, ms)
     return out
+
+def extra_evidence(tier):
+    """what the spec tie (tie/spec_tie.py) compared in this run"""
+    import spec_tie as ST
+    return {'spec_tie': dict(ST.STATS, what='handlers inside the fragment of the theorems: code = bytes of SpecFor.code2 (Coq, extracted) '
+                             'compared with the harness compiler; lingo / js = canonical texts pp_q / pp_js_q of the theorems compared with the '
+                             'text the implementation emits (only when the boolean side conditions of the theorems hold)')}
